@@ -1252,3 +1252,48 @@ func runRoundBookkeeping(a *Analyzer, r *Results) {
 		r.Undecided = append(r.Undecided, "no LeanHelixTerm.Dispose call in the worker (Z2.sites anchor)")
 	}
 }
+
+// callMustReach: the instruction is the SPI invoke itself, or a static call of a library function every path of which
+// (entry to normal return) passes such an instruction: the send is unconditional once the helper is entered.
+func callMustReach(a *Analyzer, in ssa.Instruction, recvType, method string, depth int) bool {
+	ci, ok := in.(ssa.CallInstruction)
+	if !ok {
+		return false
+	}
+	cc := ci.Common()
+	if cc.IsInvoke() && cc.Method.Name() == method && typeShort(cc.Value.Type()) == recvType {
+		return true
+	}
+	sc := cc.StaticCallee()
+	if sc == nil || !a.P.IsLib(sc) || depth > 4 {
+		return false
+	}
+	// every path entry -> return of sc passes a must-reaching instruction
+	seen := map[*ssa.BasicBlock]bool{}
+	var walk func(b *ssa.BasicBlock) bool
+	walk = func(b *ssa.BasicBlock) bool {
+		for _, x := range b.Instrs {
+			if callMustReach(a, x, recvType, method, depth+1) {
+				return true
+			}
+			switch x.(type) {
+			case *ssa.Return:
+				return false
+			case *ssa.Panic:
+				return true
+			}
+		}
+		for _, s := range b.Succs {
+			if seen[s] {
+				continue
+			}
+			seen[s] = true
+			if !walk(s) {
+				return false
+			}
+		}
+		return true
+	}
+	seen[sc.Blocks[0]] = true
+	return walk(sc.Blocks[0])
+}
